@@ -272,6 +272,7 @@ def permute(d, variant):
                 devices=p([(n, None if s is None else p(s)) for n, s in d["devices"]]))
 
 
+ALWAYS_ILL_FORMED = ("empty_struct", "devices_nosvc")
 PLUGINS = {"general": None, "dbc": "fcp_dbc", "can_c": "fcp_can_c"}
 SPECS = {"general": spec_general, "dbc": spec_dbc, "can_c": spec_can_c}
 
@@ -323,6 +324,8 @@ def c09_case(args):
                         f"{'ill-formed' if out else 'well-formed'} on {feats['desc']}")
         res["vacuity"] = {"ok_paths": sum(1 for k, o, _ in paths if k == "ret" and o),
                           "err_paths": sum(1 for k, o, _ in paths if k == "ret" and not o)}
+        if res["vacuity"]["err_paths"] == 0 or (res["vacuity"]["ok_paths"] == 0 and skname not in ALWAYS_ILL_FORMED):
+            res["inconclusive"].append(f"{feats['desc']}: vacuous skeleton: {res['vacuity']}")
     except EngineLimit as e:
         res["inconclusive"].append(f"{feats['desc']}: engine limit: {e}")
     finish_engine(res, eng)
